@@ -423,6 +423,21 @@ def oracle(case, impl, ros):
     for g, e, got, exp in impl.get("term_bad", []):
         probs.append(("oracle-terminal-observation-not-normalised", f"step {g} env {e}: the terminal observation handed over under VecNormalize starts with {got}, "
                                                                     f"the observations the policy is trained on are normalised ({exp})"))
+    # the env is reset by learn() only on the first call and when the counters are reset: otherwise the last observation is carried over
+    want_resets = 1 + sum(1 for c in case["calls"][1:] if c["reset"])
+    for e in range(ne):
+        ext, pending = 0, False
+        for rec in impl["gt"][e]:
+            if rec[0] == "reset":
+                if pending:
+                    pending = False
+                else:
+                    ext += 1
+            else:
+                pending = bool(rec[3] or rec[4])
+        if ext != want_resets:
+            probs.append(("oracle-env-reset-between-learn-calls", f"env {e} was reset from outside {ext} times, expected {want_resets} "
+                                                                  f"(calls: {[c['reset'] for c in case['calls']]}; reset_num_timesteps=False must continue from the last observation)"))
     if impl.get("use_sde"):
         f = impl["sde_freq"]
         for r in range(len(impl["snaps"])):
